@@ -41,7 +41,8 @@ Consume(o) == /\ pos' = [pos EXCEPT ![o] = @ + 1]
               /\ run' = run
 
 ScenarioOf(n) == [front |-> Rec[n].front, back |-> Rec[n].back,
-                  mode |-> IF Rec[n].mode = "seqgap" THEN "seq" ELSE Rec[n].mode, nbk |-> Rec[n].nbk]
+                  mode |-> IF Rec[n].mode = "seqgap" THEN "seq" ELSE Rec[n].mode, nbk |-> Rec[n].nbk,
+                  timing |-> Rec[n].timing]
 ReqsOf(n) == [r \in Reqs |-> IF r <= Len(Rec[n].reqs)
                               THEN [route |-> Rec[n].reqs[r].route, framing |-> Rec[n].reqs[r].framing,
                                     fault |-> Rec[n].reqs[r].fault, at |-> Rec[n].reqs[r].at, pace |-> Rec[n].reqs[r].pace]
